@@ -312,24 +312,25 @@ def to_signum(signum):
         'SIGKILL' - signal names with SIG prefix
         'SIGRTMIN+1' - signal names with offsets
     """
-    try:
-        val = int(signum)
-        return val
-    except ValueError:
-        pass
+    if isinstance(signum, int) and not isinstance(signum, bool):
+        return signum
 
-    m = re.match(r'(\w+)(\+(\d+))?', signum)
-    if m:
-        name = m.group(1).upper()
-        if not name.startswith('SIG'):
-            name = 'SIG' + name
+    if isinstance(signum, str):
+        designation = signum.strip()
+        if re.fullmatch(r'\d+', designation):
+            return int(designation)
 
-        offset = int(m.group(3)) if m.group(3) else 0
+        m = re.fullmatch(r'([A-Za-z][A-Za-z0-9]*)(\+(\d+))?', designation)
+        if m:
+            name = m.group(1).upper()
+            if not name.startswith('SIG'):
+                name = 'SIG' + name
 
-        try:
-            return getattr(signal, name) + offset
-        except KeyError:
-            pass
+            offset = int(m.group(3)) if m.group(3) else 0
+
+            sig = getattr(signal, name, None)
+            if isinstance(sig, signal.Signals):
+                return int(sig) + offset
 
     raise ValueError('signal invalid: {}'.format(signum))
 
